@@ -1499,7 +1499,8 @@ func (e *Exec) appendOp(dv, sv Value, t types.Type, pos token.Pos) Value {
 	need := tb.Bin(OAdd, d.len, s.len)
 	if isByteType(et) {
 		fits := tb.Cmp(OSle, need, d.cap)
-		if d.isNil() {
+		if d.isNil() || (d.cap.isConst() && d.cap.k == 0) {
+			// nil, or an empty literal such as []byte{} (bytes.Clone): every non-empty append grows
 			fits = tb.False()
 		}
 		if e.branch(fits) {
@@ -1531,7 +1532,7 @@ func (e *Exec) appendOp(dv, sv Value, t types.Type, pos token.Pos) Value {
 			e.inputs = append(e.inputs, inputRec{kind: "cap", terms: []*Term{ncap}})
 		}
 		o := e.newBObj(ncap, max, "append")
-		if !d.isNil() {
+		if !d.isNil() && !(d.len.isConst() && d.len.k == 0) {
 			e.sliceCopyTo(o, tb.K(64, 0), d, d.len)
 		}
 		e.sliceCopyTo(o, d.len, s, s.len)
